@@ -1478,7 +1478,7 @@ def run(ck, tier, rng):
         if not res["error"]:
             ck.sample({"deck": res["deck"], "accessor_evaluations": res["evals"], "traversals": res["traversals"],
                        "traversal_evaluations": res["trav_calls"], "intermediate_saves": res["saves"]})
-    any_concrete = any(v["concrete"] for v in ck.violations) or bool(ck.known_hits)
+    any_concrete = any(v["concrete"] for v in ck.violations)
     ck.broken_build(oracle_found_concrete=any_concrete)
     exercised = sum(1 for r in meta["rows"] if obs.get((r["module"], r["cls"], r["name"])))
     lv = collections.Counter("unresolved" if r["unres"] else r["level"] for r in meta["rows"])
